@@ -339,3 +339,30 @@ def check(lines, asserts, solver="z3", timeout=20, get_model=True):
     r = run_solver(script, solver, timeout)
     r.script = script
     return r
+
+
+def check_batch(queries, solver="z3", timeout=20):
+    """Several small queries in ONE solver process (push/pop); returns a list
+    of Result.  Any `(error` line makes the whole batch inconclusive."""
+    parts = header(timeout, solver)
+    for lines, asserts in queries:
+        parts.append("(push 1)")
+        parts += list(lines)
+        parts += [f"(assert {a})" for a in asserts]
+        parts.append("(check-sat)")
+        parts.append("(pop 1)")
+    script = "\n".join(parts) + "\n"
+    t0 = time.time()
+    try:
+        p = subprocess.run(SOLVERS[solver], input=script, capture_output=True, text=True,
+                           timeout=timeout * len(queries) + 10)
+        out = p.stdout + p.stderr
+    except subprocess.TimeoutExpired:
+        return [Result("timeout", {}, time.time() - t0, "", solver) for _ in queries]
+    secs = time.time() - t0
+    if "(error" in out:
+        return [Result("error", {}, secs / len(queries), out[:2000], solver) for _ in queries]
+    toks = [l.strip() for l in out.splitlines() if l.strip() in ("sat", "unsat", "unknown", "timeout")]
+    if len(toks) != len(queries):
+        return [Result("error", {}, secs / len(queries), out[:2000], solver) for _ in queries]
+    return [Result("unknown" if t == "timeout" else t, {}, secs / len(queries), "", solver) for t in toks]
